@@ -250,7 +250,9 @@ func C14UpdateRace() {
 // write made while it is subscribed still reaches it exactly once (client writes and service-side
 // updates, including an update that repeats the current value).
 func C14Resubscribe() {
+	zzWithStats = sym.Bool("method-statistics-enabled")
 	o, proxy, _ := zzEmitterSetup()
+	zzWithStats = false
 	obj := proxyObject{proxy}
 	for round := 0; round < 3; round++ {
 		cancel, events, err := proxy.SubscribeID(300)
@@ -276,4 +278,46 @@ func C14Resubscribe() {
 		sym.Quiesce()
 	}
 	sym.Reach("resubscribe-done")
+}
+
+// C14DeadSubscriber: one of the property's subscribers sits on a connection whose writes fail (broken
+// pipe not noticed yet). A client write the validator accepts is still ONE accepted write: the healthy
+// subscriber gets exactly one event with the new value and reading the property returns that value.
+func C14DeadSubscriber() {
+	auth := &zzAuth{user: "u", token: "t"}
+	l := newZZListener()
+	srv, err := StandAloneServer(l, auth, PrivateNamespace())
+	sym.Assert(err == nil, "server-started")
+	o := zzPropObject(-100)
+	service, err := srv.NewService("props", o.front)
+	sym.Assert(err == nil, "service-registered")
+	sid := service.ServiceID()
+	a := zzAuthConn(l, 1) // the writer
+	subs := []*zzStream{zzAuthConn(l, 1), zzAuthConn(l, 1)}
+	for i, sub := range subs {
+		out := zzRoundTrip(sub, zzFrame(net.Call, sid, 1, 0, 5, zzRegisterPayload(1, zzPropID, uint64(77+i))))
+		sym.Assert(len(out) == 1 && out[0].Header.Type == net.Reply, "subscribed")
+	}
+	dead := sym.Choose("dead-subscriber", 2)
+	healthy := subs[1-dead]
+	subs[dead].mu.Lock()
+	subs[dead].failFrom = subs[dead].writes + 1
+	subs[dead].mu.Unlock()
+	mark := len(healthy.sentMessages())
+	name := zzValueBytes(value.String("delay"))
+	x := sym.I32("new-value")
+	sym.Assume(x >= -100)
+	out := zzRoundTrip(a, zzFrame(net.Call, sid, 1, 6, 30, append(append([]byte{}, name...), zzValueBytes(value.Int(x))...)))
+	sym.Assert(len(out) == 1, "set-answered")
+	events := healthy.sentMessages()[mark:]
+	sym.Assert(len(events) == 1, "dead-subscriber/healthy-subscriber-event-count")
+	if len(events) == 1 {
+		sym.Assert(sym.EqBytes(events[0].Payload, zzLE32(uint32(x))), "dead-subscriber/event-carries-new-value")
+	}
+	got := zzRoundTrip(a, zzFrame(net.Call, sid, 1, 5, 31, name))
+	sym.Assert(len(got) == 1 && got[0].Header.Type == net.Reply, "dead-subscriber/get-answered")
+	if len(got) == 1 && got[0].Header.Type == net.Reply {
+		sym.Assert(sym.EqBytes(got[0].Payload, zzValueBytes(value.Int(x))), "dead-subscriber/announced-value-not-readable")
+	}
+	sym.Reach("dead-subscriber-done")
 }
